@@ -850,6 +850,8 @@ func (ec *evalCtx) call(x *ast.CallExpr) (T, types.Type, error) {
 			return T{}, nil, err
 		}
 		return T{S: eq(app("dyn", v.S), fmt.Sprint(vc.typeID(tt))), Sort: SBool}, types.Typ[types.Bool], nil
+	case "scalls", "scall", "sret", "sarg":
+		return ec.traceExpr(name, x)
 	case "ncalls":
 		return T{S: ec.now.callsN, Sort: SInt}, types.Typ[types.Int], nil
 	case "callee", "callret":
